@@ -22,6 +22,7 @@ def run(tier, seed, replay=None):
     return run_sink_property("C05", RULE, tier, seed, replay, plans,
                              ["only the promises the property lists are judged; what a particular sink may additionally need "
                               "(e.g. that the reference sibling has a parent) is not",
-                              "'same qualified name' is judged literally (prefix and local name): the XML tree builder may hand "
-                              "over x and z:x with z unbound; for HTML parses this coincides with the expanded name"],
+                              "'same qualified name' is judged under both readings: no two attributes of a list agree in prefix:local, and "
+                              "none agree in namespace + local name (what the XML tree builder de-duplicates by; for HTML parses the "
+                              "two coincide)"],
                              mc=[("MC_Dom", "MC_Dom.tla", "MC_Dom.cfg", "MC_Dom_thorough.cfg")])
